@@ -136,6 +136,14 @@ void NiStringRef::Read(NiIStream& stream) {
 		buf[sz] = 0;
 		str = buf.data();
 	}
+#ifdef NIFLY_VERIF
+	else if (verif::hooks) {
+		verif::SetHint(verif::Hint::StringIndex, sizeof(index));
+		stream.read(reinterpret_cast<char*>(&index), sizeof(index));
+		if (verif::hooks->onStringRef)
+			verif::hooks->onStringRef(verif::hooks->ctx, this, false, -1);
+	}
+#endif
 	else
 		stream >> index;
 }
@@ -148,6 +156,13 @@ void NiStringRef::Write(NiOStream& stream) {
 		stream << sz;
 		stream.write(str.c_str(), str.length());
 	}
+#ifdef NIFLY_VERIF
+	else if (verif::hooks) {
+		if (verif::hooks->onStringRef)
+			verif::hooks->onStringRef(verif::hooks->ctx, this, true, stream.GetBlockSize());
+		stream << index;
+	}
+#endif
 	else
 		stream << index;
 }
